@@ -33,7 +33,7 @@ TYPES = {
     # RFC 6265 5.2: attribute names case-insensitive, OWS around ';', unknown attributes ignored, order free;
     # the name=value pair stays first and untouched
     'cryptoparser.httpx.header:HttpHeaderFieldValueSetCookie': dict(
-        sep=';', variants=(NAME_CASE, OWS, REORDER, UNKNOWN), quotable=(), keep_first=1),
+        sep=';', variants=(NAME_CASE, OWS, REORDER, UNKNOWN, EMPTY), quotable=(), keep_first=1),   # 5.2 step 3-4: empty attributes are skipped
     # RFC 9110 8.3.1: type/subtype and parameter names case-insensitive, OWS around ';'; media type stays first
     'cryptoparser.httpx.header:HttpHeaderFieldValueContentType': dict(
         sep=';', variants=(NAME_CASE, OWS, VALUE_CASE), quotable=(), keep_first=1, first_case=True),
